@@ -29,6 +29,7 @@ type Run struct {
 	defUnwind   int
 	steps       int
 	forks       int
+	ifconv      int
 	varCache    map[int]map[int]bool
 	noSlicing   bool
 	fnUsed      map[string]bool
